@@ -646,7 +646,9 @@ fn deliver(w: &World, token: &str, other: Option<&str>, victim_kid: &str) -> (St
       if let Some(n) = parse_compact(token).and_then(|p| p.header.get("nonce").and_then(|n| n.as_str().map(str::to_owned))) {
         opts = opts.nonce(n);
       }
-      sign_raw(adv, "adv", &payload, &opts).unwrap_or_else(|_| token.to_owned())
+      // sign with the adversary's key that shares the victim's fragment when there is one
+      let frag = if victim_kid.ends_with("#auth") || victim_kid.ends_with("auth") { "auth" } else { "adv" };
+      sign_raw(adv, frag, &payload, &opts).unwrap_or_else(|_| token.to_owned())
     }
     Move::KidSwap => {
       ctx::stat("fault.adversary.kid_swap");
@@ -1540,21 +1542,66 @@ pub fn run(prop: &str, _params: &Params) {
     w.parties.push(p);
     w.cur_bitmaps.push(BTreeMap::new());
   }
+  // C03: a holder document may list a method of another DID that shares the fragment of the holder's own method and
+  // precedes it in the document (the adversary's did:sim:adversary0#auth); kid / method id must still select by DID
+  let list_foreign_same_fragment = prop == "C03" && ctx::choose(3) == 0;
+  let mut adversary_early: Option<Party> = None;
+  if list_foreign_same_fragment {
+    let mut a = Party::new("adversary", false, 0);
+    w.clock.enter(0);
+    let _ = a.gen_method("adv", None);
+    let _ = a.gen_method("other", None);
+    let _ = a.gen_method("auth", None);
+    adversary_early = Some(a);
+  }
   for i in 0..w.n_holders {
     let mut p = Party::new("holder", ctx::choose(2) == 0, i);
     p.skew = ctx::range(-5, 5);
     w.clock.enter(p.skew);
-    let _ = p.gen_method("auth", REL_AUTH);
+    let _ = p.gen_method("auth", if list_foreign_same_fragment && ctx::choose(2) == 0 { None } else { REL_AUTH });
+    if list_foreign_same_fragment {
+      // reference the holder's own general-purpose #auth from authentication (when it is general purpose)
+      match &mut p.doc {
+        AnyDoc::Core(d) => {
+          let _ = d.attach_method_relationship(format!("{}#auth", p.did).as_str(), identity_verification::MethodRelationship::Authentication);
+        }
+        AnyDoc::Iota(d) => {
+          let _ = d.attach_method_relationship(format!("{}#auth", p.did).as_str(), identity_verification::MethodRelationship::Authentication);
+        }
+      }
+      // The document as a deserialised one: the adversary's did:...#auth listed BEFORE the holder's own #auth (a
+      // document its owner assembled elsewhere; the mutators would append it after).
+      if let (Some(a), 0) = (&adversary_early, i) {
+        if let Some(m) = a.doc.core().resolve_method("auth", None) {
+          let mj = serde_json::to_value(m).unwrap();
+          let mut dj = serde_json::to_value(p.doc.core()).unwrap();
+          let key = if dj.get("verificationMethod").is_some() && ctx::choose(2) == 0 { "verificationMethod" } else { "authentication" };
+          let mut arr = dj.get(key).and_then(|a| a.as_array().cloned()).unwrap_or_default();
+          arr.insert(0, mj);
+          dj[key] = Value::Array(arr);
+          if let Ok(core) = CoreDocument::from_json_value(dj) {
+            p.doc = match &p.doc {
+              AnyDoc::Core(_) => AnyDoc::Core(core),
+              AnyDoc::Iota(_) => AnyDoc::Iota(identity_iota_core::IotaDocument::from(core)),
+            };
+            ctx::stat("probe.foreign_method_same_fragment_listed_first");
+          }
+        }
+      }
+    }
     if ctx::choose(2) == 0 {
       let _ = p.gen_method("alt", if ctx::choose(2) == 0 { REL_ASSERT } else { None });
     }
     w.parties.push(p);
   }
-  {
+  if let Some(a) = adversary_early {
+    w.parties.push(a);
+  } else {
     let mut a = Party::new("adversary", false, 0);
     w.clock.enter(0);
     let _ = a.gen_method("adv", None);
     let _ = a.gen_method("other", None);
+    let _ = a.gen_method("auth", None);
     w.parties.push(a);
   }
   let n = w.parties.len();
